@@ -244,6 +244,9 @@ func TestC03(t *testing.T) {
 	r := hx.NewRec(t, "C03")
 	defer r.Finish()
 	r.Assume("properly nested do/undo as a depth-first search performs them; null move only when not in check (the search's own precondition); <= 512 plies")
+	if hx.FuzzCrasher(r, "FuzzC03", genFuzzC03, propC03) {
+		return
+	}
 
 	hx.Sub(r, "machine", r.N(4000, 12000), func(t *rapid.T) undoCase {
 		return genUndoCase(t, r.N(80, 300), r.N(60, 120))
